@@ -39,10 +39,14 @@ CHECKS = {
             "pkg": BS, "funcs": ["VerifC13PendingQueue"],
             "covers": {"VerifC13PendingQueue": ["replication-in-progress", "saved", "loaded"]},
         }, {
+            "pkg": BS, "funcs": ["VerifC13ForeignRef"],
+            "covers": {"VerifC13ForeignRef": ["via-refs", "via-next", "saved", "loaded"]},
+        }, {
             "pkg": BS, "funcs": ["VerifC13SaveFault"],
             "covers": {"VerifC13SaveFault": ["no-fault", "snapshot-key-write-fails", "queue-key-write-fails", "save-refused", "saved"]},
         }],
         "assumptions": [
+            "links into another database (VerifC13ForeignRef): the saved log holds a replicated entry whose refs / next name entries validly written for another database (own chain 1..2, foreign chain 1..2, optional own write afterwards); a fresh instance loading the snapshot reconstructs exactly the saved log and heads",
             "error paths (VerifC13SaveFault): a first snapshot is saved, the log grows, a second save runs while the cache write of the snapshot path or of the queue fails: the save reports the error, or - if it reports success - a fresh instance reloads the database held at that save",
             "the loading instance is fresh, or already holds the complete branch under ONE of the saved heads (received from a peer before the snapshot is loaded)",
             "log shapes: empty, single-writer chain of T entries, two writers with concurrent chains of any lengths nb + na = T, replicated (so the replicator's task table is non-empty and the heads have equal or different clock times), optionally merged by a later local write; the real SaveSnapshot, GetQueue, LoadFromSnapshot, NewFromJSON, Join run over an in-memory Unixfs and cache",
@@ -233,7 +237,7 @@ CHECKS = {
     "C10": {
         "groups": [{
             "pkg": BS, "funcs": ["VerifC10Mixed"],
-            "covers": {"VerifC10Mixed": ["non-writer", "foreign-db", "wrong-hash", "bad-ancestor", "bad-signature", "re-announced", "claims-valid-address", "rejected-alone-first", "unfetchable-ancestor"]},
+            "covers": {"VerifC10Mixed": ["non-writer", "foreign-db", "wrong-hash", "bad-ancestor", "bad-signature", "re-announced", "claims-valid-address", "rejected-alone-first", "unfetchable-ancestor", "valid-head-with-history"]},
         }, {
             "pkg": BS, "funcs": ["VerifC10ForgedInBatch"],
             "covers": {"VerifC10ForgedInBatch": ["mixed-batch-processed", "genuine-head-alongside", "re-announced"]},
@@ -242,6 +246,7 @@ CHECKS = {
             "covers": {"VerifC10Before": ["tampered-readdressed", "non-writer", "bad-ancestor", "rejected-later", "restarted"]},
         }],
         "assumptions": [
+            "history below the valid head (VerifC10Mixed): the valid head stands on 0 or 3 older valid entries the replica does not hold; after the re-announcement the whole history is in log and view",
             "a sixth rejected companion: a writer's entry whose ancestor cannot be fetched (the failing fetch completes last of the burst)",
             "BEFORE clause (VerifC10Before): 1..2 valid entries are replicated (optionally a local write too), then an announcement arrives whose fetched log the join refuses (tampered re-addressed copy with the genuine identity block / non-writer / writer on a non-writer's ancestor); the earlier entries stay in log and view and are reloaded after a restart",
             "forged author inside a batch (VerifC10ForgedInBatch): writers w1 and w2; a forged-author entry naming w1's id (made by w2 with its own key), linked by a valid entry of w2 and linking on to w1's genuine head, so that it is judged before w1's 1..2 genuine entries of the same batch; w1's head is announced alongside or only afterwards; the genuine entries are in log and view at the latest after the re-announcement",
@@ -271,6 +276,10 @@ CHECKS = {
             "params": {"quick": {"N": 2}, "thorough": {"N": 3}},
             "covers": {"VerifC11LoadAbort": ["load-cancelled", "load-fetch-failed", "aborted", "reopened", "retried"]},
         }, {
+            "pkg": BS, "funcs": ["VerifC11NewerHeadRefs"],
+            "params": {"quick": {"N": 6}, "thorough": {"N": 17}},
+            "covers": {"VerifC11NewerHeadRefs": ["aborted", "gap-left", "newer-head-has-refs", "newer-head-requested"]},
+        }, {
             "pkg": BS, "funcs": ["VerifC11LateProvider"],
             "params": {"quick": {"N": 3}, "thorough": {"N": 4}},
             "covers": {"VerifC11LateProvider": ["slow-provider-answered"]},
@@ -279,6 +288,7 @@ CHECKS = {
             "validate": False, "native_replay": False,
         }],
         "assumptions": [
+            "inside the region of the listed finding (VerifC11NewerHeadRefs): a chain of N entries with real reference links, the request for its head cancelled at the k-th fetch (every k), one more entry appended, the newer head requested with a live context; every entry in the closure of the newer head over next AND refs links that does not pass through entries already held must be visible (this is what a newer head still repairs; the entries between two held ones remain the listed finding)",
             "slow provider (VerifC11LateProvider): nothing is cancelled; the provider of one non-head block answers after ten minutes of VIRTUAL time (timers fire only when nothing else can run, in deadline order); the request completes on its own, a later request for the same heads changes nothing, every entry is visible and the queue is empty (a fetch that gives up after a timeout of its own turns this into a request that failed part-way); interpreter-only: no native replay",
             "load route (VerifC11LoadAbort): a restarted store with two cached heads (own chain of N + replicated concurrent chain of N); the first Load is cancelled at its k-th block read or one block cannot be read; a later Load on the same store or on a store reopened from the same directory makes every entry visible in log and view (the partial-ancestry finding shows on this route too and is carved out the same way)",
             "remote log = chain of N entries or two branches; replication concurrency 1 or 2; request 1 is cancelled before it starts, at the k-th block fetch (k=1..N, i.e. while another worker waits for a slot or in the middle of a fetch) or after the last, and/or one chosen fetch fails; request 2 for the same heads runs with a live context and all blocks available",
@@ -417,13 +427,19 @@ CHECKS = {
             "max_paths": {"quick": 60000, "thorough": 400000},
             "covers": {"VerifC16WriteDuringMerge": ["write-event", "replicated-event", "write-during-merge"]},
         }, {
+            "pkg": DOC, "funcs": ["VerifC16ReadRace"],
+            "params": {"quick": {"P": 1}, "thorough": {"P": 1}},
+            "max_paths": {"quick": 60000, "thorough": 60000},
+            "covers": {"VerifC16ReadRace": ["raced"]},
+        }, {
             "pkg": DOC, "funcs": ["VerifC16BatchFailure"],
             "covers": {"VerifC16BatchFailure": ["batch-failed", "batch-succeeded", "checked"]},
         }, {
             "pkg": BS, "funcs": ["VerifC10Mixed"],
-            "covers": {"VerifC10Mixed": ["bad-ancestor", "re-announced"]},
+            "covers": {"VerifC10Mixed": ["bad-ancestor", "re-announced", "valid-head-with-history"]},
         }],
         "assumptions": [
+            "reader overlapping a write (VerifC16ReadRace, document store): a reader thread (Get and Query of one document) and a writer that overwrites or deletes it, every schedule with at most P preemptions (the reader may be suspended inside its read and finish after the write); when the write event is received and once both finished, Get and Query show the new revision (or nothing after a delete)",
             "content of replicated events (hook in VerifC10Mixed, also run under C10): every EventReplicated lists only entries the log holds at that instant - also when a fetched log of the batch was rejected by the join - and no entry is announced by two replicated events",
             "batch paths (VerifC16BatchFailure): PutBatch / PutAll of three documents while the k-th entry block write from now fails once (k in 0..3), the same call retried, then a Delete: every entry the log holds was carried by exactly one write event, emitted when the log holds it, and no event exists without an entry",
             "clause (c) legacy channel API: the real events.EventEmitter (Emit, Subscribe, handleSubscriber with its two buffering goroutines, real container/list, sync.Cond) over the stub bus; N events (N > channel capacity 16); every interleaving of emitter, the two goroutines and the subscriber with at most P preemptions (switch or stall) at visible operations; plus a subscriber that stalls until everything else is blocked and then drains N events",
@@ -438,6 +454,11 @@ CHECKS = {
     },
     "C01": {
         "groups": [{
+            "pkg": KV, "funcs": ["VerifC06SeenThenPut"],
+            "params": {"quick": {"B": 2, "P": 1}, "thorough": {"B": 2, "P": 1}},
+            "max_paths": {"quick": 60000, "thorough": 60000},
+            "covers": {"VerifC06SeenThenPut": ["merged-while-loading", "seen"]},
+        }, {
             "pkg": KV, "funcs": ["VerifC01KV"],
             "params": {"quick": {"STEPS": 3}, "thorough": {"STEPS": 4}},
             "max_paths": {"quick": 60000, "thorough": 600000},
@@ -465,6 +486,7 @@ CHECKS = {
             "covers": {"VerifC01Grouping": ["grouped-and-separate"]},
         }],
         "assumptions": [
+            "overlapping view rebuilds (VerifC06SeenThenPut, key-value store, also part of the C06 check): a local put overlaps the rebuild that ends a replication merge or a load, every schedule with at most P preemptions; afterwards the view equals the replay of the log the replica holds (the view is recomputed from the log on EVERY change)",
             "grouping of manual syncs (VerifC01Grouping): one identity writes from two devices that have not seen each other (two concurrent heads signed with the same key; distinct (time, key) pairs), another writer's chain is known to the second device; the heads (optionally with the other writer's, in either order) are given to a fresh replica in ONE Sync call and to another one call per head: same ordered entries, everything reachable listed",
             "two writers (real stores built by InitBaseStore over a shared block store) produce a history of STEPS steps, each a local write with symbolic key/value or a real head exchange (Sync -> replicator -> ipfs-log fetcher -> Join) in either direction, in any order; then both exchange heads and a fresh replica receives everything by one of five routes: manual sync in one batch, load from the writer's disk (cache heads + blocks, real Load), a snapshot saved by the writer (real SaveSnapshot / LoadFromSnapshot), the two writers' branches in separate batches followed by a restart from its own disk, or a PARTIAL load from disk (Load with a limit k, k any value below the log length) completed by the heads a lagging peer would announce, handed over by Sync or by LoadMoreFrom (entries below the loaded window, so the log's heads do not move)",
             "the real ipfs-log Append/Join/traverse/sorting run in the interpreter; IPFS is a content-addressed block store stub with perfect hashing; identities use perfect symbolic signatures",
@@ -689,10 +711,16 @@ CHECKS = {
             "max_paths": {"quick": 60000, "thorough": 600000},
             "covers": {"VerifC01Docs": ["put-all", "put-batch", "converged"]},
         }, {
+            "pkg": DOC, "funcs": ["VerifC16ReadRace"],
+            "params": {"quick": {"P": 1}, "thorough": {"P": 1}},
+            "max_paths": {"quick": 60000, "thorough": 60000},
+            "covers": {"VerifC16ReadRace": ["raced"]},
+        }, {
             "pkg": DOC, "funcs": ["VerifC07QueryMany"],
             "covers": {"VerifC07QueryMany": ["many-documents"]},
         }],
         "assumptions": [
+            "reader overlapping a write (VerifC16ReadRace, document store): a reader thread (Get and Query of one document) and a writer that overwrites or deletes it, every schedule with at most P preemptions (the reader may be suspended inside its read and finish after the write); when the write event is received and once both finished, Get and Query show the new revision (or nothing after a delete)",
             "larger states (VerifC07QueryMany): a store holding M live documents, M in {3, 16, 17, 19, 23} (one more was put and deleted again); Query of everything, Query of a predicate and a partial Get return exactly the matching live documents, each once",
             "listing of N operations (PUT / DEL / PUTALL of two documents) with symbolic printable-ASCII keys without spaces, symbolic 1-byte document bodies; earlier index state from an arbitrary sub-listing",
             "Get/Query explored over index states made of M single PUTs (they are functions of the index state only)",
@@ -720,12 +748,13 @@ CHECKS = {
             "params": {"quick": {"W": 3, "STEPS": 3}, "thorough": {"W": 3, "STEPS": 5}},
             "max_paths": {"quick": 60000, "thorough": 800000},
             "timeout": {"quick": "10m", "thorough": "90m"},
-            "covers": {"VerifC08Writers": ["exchanged", "converged", "latest-with-several-heads"]},
+            "covers": {"VerifC08Writers": ["exchanged", "converged", "latest-with-several-heads", "bound-in-the-middle"]},
         }, {
             "pkg": EL, "funcs": ["VerifC08SortFn"],
             "covers": {"VerifC08SortFn": ["restart-load", "restart-snapshot"]},
         }],
         "assumptions": [
+            "repeated bounded queries (VerifC08Writers): on every replica the same bound (the first entry it ever listed) is queried with gt / gte / lt / lte and amount 2 after every step of the history; each answer is the window of the CURRENT full listing, whatever was asked before",
             "latest-entry queries (VerifC08Writers): after every step, on every replica, the unbounded queries with amount unset, 0 or 1 (and nil options) return exactly the last entry of the full listing, also while the log has several heads",
             "sort function as an option (VerifC08SortFn): two writers opened with a SortFn whose tie-break is the opposite of the default, two concurrent pairs, head exchanges; restart + Load or restart + snapshot; the listing follows that function on every route, a restart does not change the order of listed entries, later merges keep it",
             "listing of N entries with distinct hashes; one bound kind (none/GT/GTE/LT/LTE) at every position; Amount unset or ANY 64-bit integer (symbolic)",
